@@ -133,7 +133,7 @@ func runC08(c *Ctx) {
 	// clauses this property shares with others (see DESIGN.md section 6a)
 	defer c.ImportRules("C01", "C01.1")
 	defer c.ImportRules("C16", "C16.5")
-	defer c.ImportRules("C10", "C10.6")
+	defer c.ImportRules("C10", "C10.6", "C10.3")
 	c.Rule("C08.1", "reader adapters: envelope bytes are exhausted before payload bytes; cursor updates account for the bytes copied", 6)
 	ras := readerAdapters(p)
 	if len(ras) < 2 {
